@@ -115,8 +115,9 @@ def base_config(spec):
         if spec.get("enc_keys"):
             cnf["encryption_keypairs"] = [{"key_file": key_file(k), "cert_file": cert_file(k)}
                                           for k in spec["enc_keys"]]
-    cnf["key_file"] = key_file(spec["key"])
-    cnf["cert_file"] = cert_file(spec["key"])
+    akey = spec.get("actual_key", spec["key"])
+    cnf["key_file"] = key_file(akey)
+    cnf["cert_file"] = cert_file(akey if spec.get("actual_cert") == "other" else spec["key"])
     if spec.get("extra_certs"):
         cnf["additional_cert_files"] = [cert_file(k) for k in spec["extra_certs"]]
     if spec.get("md_key_usage"):
@@ -136,6 +137,7 @@ _MD_CACHE = {}
 
 def metadata_xml(spec):
     """The entity's metadata as the *real* `entity_descriptor` generates it from its config."""
+    spec = {k: v for k, v in spec.items() if not k.startswith("actual_")}
     key = json.dumps(spec, sort_keys=True)
     if key not in _MD_CACHE:
         cnf = base_config(spec)
